@@ -1,5 +1,6 @@
-(** On typed pairs the model of [equal] / [allclose] does not fail, provided the fuel it gives to
-    [unify] is at least the type-derived bound: [stride] and [fv] terminate within their fuel, every
+(** On typed pairs the model of [equal] / [allclose] does not fail: [unify] answers with the fuel
+    the model gives it ([unify_model_fuel_total], Proofs/Axis_fuel_suffices.v), [stride] and [fv]
+    terminate within their fuel, every
     key of the accumulated stride dict is a free axis (no KeyError in [project]), and the free axes
     of the second view are exactly [subaxes] (the [__debug__] check of [project] passes).  Hence the
     executable premise [compare_pre_b] of C13_equal_correct holds on every such pair. *)
@@ -11,6 +12,7 @@ Require Import Fggs.Proofs.Axis_fuel Fggs.Proofs.Axis_mgu Fggs.Proofs.Axis_rank 
 Require Import Fggs.Proofs.PTensor_sem Fggs.Proofs.PTensor_dense Fggs.Proofs.Axis_repr Fggs.Proofs.PTensor_gen Fggs.Proofs.Axis_complete.
 Require Import Fggs.Proofs.PTEqual_count Fggs.Proofs.PTEqual_sem Fggs.Proofs.PTEqual_freshen Fggs.Proofs.PTEqual_main.
 Require Import Fggs.Proofs.PTEqual_typed Fggs.Proofs.PTEqual_typed_main.
+Require Import Fggs.Proofs.Axis_total_path Fggs.Proofs.Axis_coarsen Fggs.Proofs.Axis_fuel_suffices.
 Local Open Scope nat_scope.
 
 (** * small facts *)
@@ -144,12 +146,11 @@ Hypothesis CB : ctx_below G next.
 Hypothesis Te : tys G (vaxes t) pss.
 Hypothesis Tf : tys G (vaxes u) pss.
 Hypothesis Gp : Forall gprimes pss.
-Hypothesis Hfuel : Forall (fun ps => tyfuel ps <= unify_fuel (vaxes t) (vaxes u)) pss.
 
 Theorem overlap_model_total : exists ov, overlap_model V next t u = Ok ov.
 Proof.
   unfold overlap_model.
-  destruct (unify_total_typed_list G _ _ pss next _ CG CB Te Tf Gp Hfuel) as (b & st' & G' & E & Wn & L & X & T').
+  destruct (unify_model_fuel_total G _ _ pss next CG CB Te Tf Gp) as (b & st' & G' & E & Wn & L & X & T').
   change (ustate0 next) with {| us_subst := []; us_next := next; us_warn := false |} in E. rewrite E. cbn [bind fst snd].
   destruct b; [|eauto].
   destruct (unify_typed_mgu_any_fuel G _ _ pss next _ true st' CG CB Te Tf Gp E) as (_ & _ & HU).
@@ -242,26 +243,30 @@ Qed.
 Lemma asize_list_rename g es : asize_list (map (rename_axis g) es) = asize_list es.
 Proof. induction es as [|e es IH]; simpl; [reflexivity|]. rewrite asize_rename, IH. reflexivity. Qed.
 
-(** C13's premise holds on every typed pair (fuel side condition: the fuel of the model is at least
-    the type-derived bound) *)
+(** the model of [overlap] answers on [t] and the (possibly freshened) [other] of a call [t.equal(u)] *)
+Lemma freshened_overlap_total G next pss (t u : pt) :
+  typed_pair xval G next pss t u ->
+  exists ov, overlap_model xval (snd (freshened xval next t u)) t (fst (freshened xval next t u)) = Ok ov.
+Proof.
+  intros TP. pose proof (tp_wft _ _ _ _ _ _ TP) as Wt. pose proof (tp_wfu _ _ _ _ _ _ TP) as Wu.
+  unfold freshened. destruct (pt_isdisjoint xval t u) eqn:D; cbn [fst snd].
+  - apply (overlap_model_total xval t u Wt Wu G next pss); apply TP.
+  - apply (overlap_model_total xval t _ Wt (pt_freshen_wf xval u next Wu) (fresh_ctx xval u G next) _ pss).
+    + exact (fresh_ctx_good xval t u G next pss TP).
+    + exact (fresh_ctx_below xval t u G next pss TP).
+    + exact (fresh_tys_t xval t u G next pss TP).
+    + exact (fresh_tys_u xval t u G next pss TP).
+    + apply TP.
+Qed.
+
+(** C13's premise holds on every typed pair *)
 Theorem compare_pre_typed G next pss (t u : pt) :
   typed_pair xval G next pss t u -> wf_b t = true -> wf_b u = true ->
-  Forall (fun ps => tyfuel ps <= unify_fuel (vaxes t) (vaxes u)) pss ->
   compare_pre_b next t u = true.
 Proof.
-  intros TP Bt Bu Hf. unfold compare_pre_b.
+  intros TP Bt Bu. unfold compare_pre_b.
   pose proof (freshened_overlap_ok xval t u G next pss TP) as Hov. cbv zeta in Hov.
-  pose proof (tp_wft _ _ _ _ _ _ TP) as Wt. pose proof (tp_wfu _ _ _ _ _ _ TP) as Wu.
-  assert (Tot : exists ov, overlap_model xval (snd (freshened xval next t u)) t (fst (freshened xval next t u)) = Ok ov).
-  { unfold freshened. destruct (pt_isdisjoint xval t u) eqn:D; cbn [fst snd].
-    - apply (overlap_model_total xval t u Wt Wu G next pss); try apply TP. exact Hf.
-    - apply (overlap_model_total xval t _ Wt (pt_freshen_wf xval u next Wu) (fresh_ctx xval u G next) _ pss).
-      + exact (fresh_ctx_good xval t u G next pss TP).
-      + exact (fresh_ctx_below xval t u G next pss TP).
-      + exact (fresh_tys_t xval t u G next pss TP).
-      + exact (fresh_tys_u xval t u G next pss TP).
-      + apply TP.
-      + rewrite (pt_freshen_vaxes xval u next Wu). unfold unify_fuel in *. rewrite asize_list_rename. exact Hf. }
+  pose proof (freshened_overlap_total G next pss t u TP) as Tot.
   destruct (freshened xval next t u) as [u' next'] eqn:F. cbn [fst snd] in *.
   rewrite Bt, Bu. cbn [andb]. unfold overlap_exact_b. destruct Tot as (ov & Eov).
   unfold overlap_cs in Hov. rewrite Eov in *. destruct ov as [o|]; apply overlap_ok_b_complete; apply Hov; reflexivity.
@@ -270,10 +275,45 @@ Qed.
 (** hence [equal] / [allclose] answer, and answer correctly *)
 Corollary compare_decides_typed cmp G next pss (t u : pt) :
   typed_pair xval G next pss t u -> wf_b t = true -> wf_b u = true ->
-  Forall (fun ps => tyfuel ps <= unify_fuel (vaxes t) (vaxes u)) pss ->
   exists b, compare_model xval cmp next t u = Ok b /\ (b = true <-> cellwise cmp t u).
 Proof.
-  intros TP Bt Bu Hf. pose proof (compare_pre_typed G next pss t u TP Bt Bu Hf) as P.
+  intros TP Bt Bu. pose proof (compare_pre_typed G next pss t u TP Bt Bu) as P.
   destruct (compare_model_total cmp next t u P) as (b & E). exists b. split; [exact E|].
   exact (compare_model_correct cmp next t u b P E).
+Qed.
+
+(** * premise-free: on every typed pair the model answers, and the answer is the truth
+    (no executable premise, no condition on the fuel, [wf] instead of [wf_b]) *)
+Theorem compare_total_typed cmp G next pss (t u : pt) :
+  typed_pair xval G next pss t u ->
+  exists b, compare_model xval cmp next t u = Ok b /\ (b = true <-> cellwise cmp t u).
+Proof.
+  intros TP.
+  assert (Tot : exists b, compare_model xval cmp next t u = Ok b).
+  { pose proof (freshened_overlap_total G next pss t u TP) as (ov & Eov). unfold compare_model.
+    destruct (nat_list_eqb (shape xval t) (shape xval u)); cbn [negb]; [|eauto].
+    destruct (freshened xval next t u) as [u' next']. cbn [fst snd] in Eov.
+    apply compare_core_total. unfold overlap_cs. rewrite Eov. destruct ov; eauto. }
+  destruct Tot as (b & E). exists b. split; [exact E|].
+  exact (compare_model_correct_typed cmp G next pss t u b TP E).
+Qed.
+
+Theorem equal_total_typed G next pss (t u : pt) :
+  typed_pair xval G next pss t u ->
+  exists b, equal_model next t u = Ok b /\
+    (b = true <-> shape xval t = shape xval u /\
+                  forall idx, in_bounds (shape xval t) idx -> denote xval t idx = denote xval u idx /\ denote xval t idx <> XNaN).
+Proof.
+  intros TP. destruct (compare_total_typed xeq_num G next pss t u TP) as (b & E & _).
+  exists b. split; [exact E|]. exact (equal_correct_typed G next pss t u b TP E).
+Qed.
+
+Theorem allclose_total_typed rtol atol en G next pss (t u : pt) :
+  typed_pair xval G next pss t u ->
+  exists b, allclose_model rtol atol en next t u = Ok b /\
+    (b = true <-> shape xval t = shape xval u /\
+                  forall idx, in_bounds (shape xval t) idx -> xisclose rtol atol en (denote xval t idx) (denote xval u idx) = true).
+Proof.
+  intros TP. destruct (compare_total_typed (xisclose rtol atol en) G next pss t u TP) as (b & E & _).
+  exists b. split; [exact E|]. exact (allclose_correct_typed rtol atol en G next pss t u b TP E).
 Qed.
